@@ -5,7 +5,7 @@ from props.c01 import run_generic
 
 NEEDS_VO = ["Model/X86Enc.v", "Spec/X86Len.v", "Check/C01.v", "Check/Prog.v"]
 WHY = {5: "emitted encoding is longer than the shortest valid encoding in this mode", 1: "undecodable", 2: "decodes to a different instruction", 3: "length"}
-EDGE = [0, 1, 5, 126, 127, 128, 129, -1, -127, -128, -129, -130, 255, 256, 1000, -1000, 0x7fff, 0x8000, 0x12345]
+EDGE = [0, 1, 5, 126, 127, 128, 129, -1, -127, -128, -129, -130, 255, 256, 1000, -1000, 0x7fff, 0x8000, 0x12345, 0xff7f, 0xff80, 0xffff, 0xffffff7f, 0xffffff80, 0xffffffff]
 
 
 def skeleton(tier):
